@@ -110,7 +110,10 @@ class Fn:
 class Program:
     def __init__(self, path, config):
         self.config = config
-        self.j = json.load(open(path))
+        text = open(path).read()
+        # no_std builds name the same items through `core::` / `alloc::`: normalise to the `std::` paths
+        text = _re.sub(r'(?<![A-Za-z0-9_])(?:core|alloc)::', 'std::', text)
+        self.j = json.loads(text)
         self.fns = {}
         dup = set()
         for f in self.j["fns"]:
